@@ -98,6 +98,18 @@ BadNames == {"foo", "add16", "exit64", "ja64", "jeq64", "lddw64", "mov3264", "be
 AsmA3 == { <<"a3", <<Ins(mn, ops)>> >> : mn \in BadNames,
             ops \in { <<>>, <<RegOf(1)>>, <<RegOf(1), RegOf(2)>>, <<RegOf(1), IntOf(2, 1)>>, <<IntOf(1, 1)>>,
                       <<RegOf(1), MemOp(2, 4, 1)>>, <<RegOf(1), IntOf(2, 1), IntOf(1, 3)>> } }
+\* A6: every mnemonic, and every stem either tool spells, followed by every size / width suffix:
+\* whatever is not in the table is not a mnemonic, with any operand list (in particular the one the
+\* stem's family takes)
+Sufs == {"b", "h", "w", "dw", "32", "64", "16", "8", "q", "x"}
+ExtraStems == {"stxxadd", "xadd", "stxadd", "ldx", "stx", "st", "ldabs", "ldind", "ld", "j", "be", "le", "call", "lddw"}
+SysBadNames(S) == { n \in { m \o sf : m \in S, sf \in Sufs } : n \notin Mnemonics }
+A6Ops == { <<>>, <<RegOf(1)>>, <<RegOf(1), RegOf(2)>>, <<RegOf(1), IntOf(2, 1)>>, <<IntOf(1, 1)>>,
+           <<RegOf(1), MemOp(2, 4, 1)>>, <<MemOp(2, 4, 1), RegOf(1)>>, <<MemOp(2, 4, 1), IntOf(3, 1)>>,
+           <<RegOf(1), IntOf(2, 1), IntOf(1, 3)>>, <<RegOf(1), RegOf(2), IntOf(1, 3)>> }
+AsmA6 == { <<"a6", <<Ins(mn, ops)>> >> : mn \in SysBadNames(ExtraStems), ops \in A6Ops } \cup
+         { <<"a6", <<Ins(mn, ops)>> >> : mn \in SysBadNames(Mnemonics),
+                                          ops \in { <<>>, <<RegOf(1), RegOf(2)>>, <<MemOp(2, 4, 1), RegOf(1)>>, <<RegOf(1), IntOf(2, 1), IntOf(1, 3)>> } }
 \* A4: several instructions: order, an error anywhere fails the whole, names starting with r after exit
 Seqs == { << Ins("mov", <<RegOf(0), IntOf(1, 1)>>), Ins("exit", <<>>) >>,
           << Ins("exit", <<>>), Ins("mov", <<RegOf(0), IntOf(1, 1)>>) >>,
@@ -120,7 +132,7 @@ AsmA5 ==
       sg \in {"", "-"}, hx \in BOOLEAN, n \in 1..25 }
 
 AsmSeeds == (IF "asm" \in Fams THEN { <<"mn", mn>> : mn \in Mnemonics } \cup {<<"misc", "">>} ELSE {})
-AsmCandsOf(s) == IF s[1] = "mn" THEN AsmA1(s[2]) \cup AsmA2(s[2]) ELSE AsmA3 \cup AsmA4 \cup AsmA5
+AsmCandsOf(s) == IF s[1] = "mn" THEN AsmA1(s[2]) \cup AsmA2(s[2]) ELSE AsmA3 \cup AsmA4 \cup AsmA5 \cup AsmA6
 
 \* ---- disasm families ------------------------------------------------------
 DisOps == Supported \cup {TAIL_CALL}
